@@ -2,7 +2,7 @@
    s_i conj(s_i) = p_i, leaves sum_i p_i |psi_i><psi_i| - for any ensemble size k (not only powers of two), any data
    dimension d, over any field with an involutive ring morphism conj. *)
 From mathcomp Require Import all_ssreflect all_algebra.
-From QV Require Import Mixed MixedCircuit.
+From QV Require Import Mixed MixedCircuit MixedTrace.
 Set Implicit Arguments. Unset Strict Implicit. Unset Printing Implicit Defensive.
 Import GRing.Theory.
 Local Open Scope ring_scope.
@@ -21,3 +21,19 @@ Theorem C14_in_circuit_purification : forall (F : fieldType) (k d : nat) (W : 'I
   foldr (cstep W) (Psi0 s z) (enum 'I_k) = target W s z.
 Proof. move=> F k d W s z. exact: in_circuit_purification. Qed.
 Print Assumptions C14_in_circuit_purification.
+
+(* the reduced state is a density matrix of trace one: for normalised pure states and probabilities summing to one
+   (MixedInitialize validates the latter: C14_probs_accept) *)
+Theorem C14_reduced_state_trace_one :
+  forall (F : fieldType) (conj : {rmorphism F -> F}) (d k : nat) (psi : 'I_k -> 'cV[F]_d) (p : 'I_k -> F),
+  (forall i, adj conj (psi i) *m psi i = 1%:M) -> \sum_i p i = 1 -> \tr (rho_ens conj psi p) = 1.
+Proof. exact: rho_ens_trace_one. Qed.
+Print Assumptions C14_reduced_state_trace_one.
+
+(* and Hermitian when the probabilities are fixed by conj (real numbers) *)
+Theorem C14_reduced_state_hermitian :
+  forall (F : fieldType) (conj : {rmorphism F -> F}) (d k : nat) (psi : 'I_k -> 'cV[F]_d) (p : 'I_k -> F),
+  (forall x, conj (conj x) = x) -> (forall i, conj (p i) = p i) ->
+  adj conj (rho_ens conj psi p) = rho_ens conj psi p.
+Proof. exact: rho_ens_hermitian. Qed.
+Print Assumptions C14_reduced_state_hermitian.
